@@ -56,6 +56,7 @@ def main(argv=None) -> int:
     except leangate.InfraError as e:
         print("INFRASTRUCTURE ERROR (not a violation): " + str(e), file=sys.stderr)
         return 2
+    ck = None
     try:
         mod = importlib.import_module("cctv.props." + a.prop.lower())
         missing = [t for t in getattr(mod, "THEOREMS", []) if f"CCT.{a.prop}.{t}" not in proof["theorems"]]
@@ -77,7 +78,8 @@ def main(argv=None) -> int:
             # the library raised where the harness expected it to work (a behaviour change no oracle anticipated): reported as a violation
             # whose replay is the call chain; no input was minimised
             import json
-            from .proto import VERIF
+            from .framework import _out_root
+            VERIF = _out_root()
             os.makedirs(os.path.join(VERIF, "replays"), exist_ok=True)
             rp = os.path.join(VERIF, "replays", f"{a.prop}-{a.seed}-unexpected-exception.json")
             json.dump({"property": a.prop, "kind": "implementation-raised-unexpectedly", "exception": repr(e)[:500], "traceback": tb[-3000:],
@@ -85,6 +87,15 @@ def main(argv=None) -> int:
             print(f"VIOLATION property={a.prop} replay={rp} no-failing-input-found")
             return 1
         traceback.print_exc()
+        if ck is not None and (ck.violations or ck.mismatches):
+            # the harness tripped over something after the implementation had already been seen to violate the property / to differ from the model
+            # (typically while describing the unexpected behaviour): what was found is reported; the crash is recorded with it
+            ck.notes.append("harness exception after the findings below were recorded: " + repr(e)[:300])
+            try:
+                return ck.finish(proof, mod.RULE, getattr(mod, "TRUSTED", TRUSTED_DEFAULT), getattr(mod, "ASSUMPTIONS", ASSUMPTIONS_DEFAULT),
+                                 [f"CCT.{a.prop}.{t}" for t in getattr(mod, "THEOREMS", [])])
+            except Exception:  # noqa: BLE001
+                traceback.print_exc()
         print("INFRASTRUCTURE ERROR (harness crashed; not a violation)", file=sys.stderr)
         return 2
 
